@@ -6,17 +6,18 @@
 (* with strengths GIVEN or DERIVED from the task loss at the first call    *)
 (* (action Seal = lazy initialisation), then walks the epochs 0..n (Tick). *)
 (* Invariants = the clauses of the property, evaluated in every state.     *)
-(* AtTarget = TRUE additionally allows a metric exactly at its target when *)
-(* strengths are derived: the as-implemented initialisation then yields    *)
-(* an infinite strength and a NaN value (finding F17) - that configuration *)
-(* is expected to FAIL (non-vacuity).                                      *)
+(* Impl = "fixed": the lazy initialisation of the current tree (strength 0 *)
+(* for a metric at or below target); Impl = "pinned": the initialisation   *)
+(* before the repair of F17 (infinite strength for a metric exactly at its *)
+(* target, NaN value) - that configuration is expected to FAIL             *)
+(* (non-vacuity of ValueFinite).                                           *)
 (***************************************************************************)
 EXTENDS Duccio, TLC
 
 CONSTANTS NMax,       \* schedule lengths 1..NMax
           NSmall,     \* more than one metric only for n <= NSmall
           MaxMet,     \* up to MaxMet metrics
-          AtTarget    \* allow derived strengths with a metric at its target
+          Impl        \* "fixed" | "pinned" : which lazy initialisation
 
 VARIABLES n, e, mets, str, sealed
 
@@ -40,10 +41,11 @@ TaskLoss == 200 * n
 
 Seal(mode) ==
     /\ ~sealed /\ Len(mets) >= 1
-    /\ (mode = "derived" /\ ~AtTarget => \A i \in DOMAIN mets : mets[i].pos # "at")
     /\ str' = [i \in DOMAIN mets |->
                  IF mode = "given" THEN Fin(100 * n * mets[i].m)
-                 ELSE DerivedStrength(TaskLoss, CostOf(mets[i].pos), Target)]
+                 ELSE IF Impl = "pinned"
+                      THEN DerivedStrengthPinned(TaskLoss, CostOf(mets[i].pos), Target)
+                      ELSE DerivedStrength(TaskLoss, CostOf(mets[i].pos), Target)]
     /\ sealed' = TRUE
     /\ UNCHANGED <<n, e, mets>>
 
